@@ -7,7 +7,7 @@ from .symexec import Contract, Unsupported
 from .stmts import Verifier
 from . import smt
 
-CONTRACT_FILES = ["asn1", "session", "messages", "decode"]
+CONTRACT_FILES = ["asn1", "session", "messages", "decode", "encode", "filter_text"]
 
 
 def load_contracts():
@@ -35,6 +35,7 @@ def new_verifier(src_root=None):
     v.immutable_fields = extras.get("immutable_fields", {})
     v.sym_frames = extras.get("sym_frames", {})
     v.exc_field_specs = extras.get("exc_fields", {})
+    v.int_field_bound = extras.get("int_field_bound")
     return v
 
 
@@ -128,6 +129,13 @@ def verify_one(job):
                                 model[name] = smt.model_value(r["model"], term)
                             except Exception:
                                 model[name] = "?"
+                # fields of symbolic input objects (self.message_id, ...) that the obligation mentions
+                try:
+                    for t in smt.constants_of(list(ob.hyps) + [ob.goal]):
+                        if t.num_args() >= 1:
+                            model[t.sexpr().replace("fld_", "").replace("!", "_")] = smt.model_value(r["model"], t)
+                except Exception:
+                    pass
                 rec["model"] = model
             res["obligations"].append(rec)
         res["stats"]["total_s"] = round(time.time() - t0, 3)
